@@ -62,7 +62,7 @@ PROPERTIES = {
         "assumptions": ["draws in [0,1)"],
     },
     "C11": {
-        "components": [("repair", 400, 60000), ("dem", 300, 50000)],
+        "components": [("repair", 400, 60000), ("dem", 300, 50000), ("variant", 200, 20000)],
         "rule": OPS_RULE + "at least one coordinate violates a bound",
         "explanation": "theorems: repair is the identity on non-violating coordinates and each strategy's placement; correspondence: bitwise equality of the repaired matrix with the Lean model executed at Float on the same recorded draws; DEM.do compared with de_mutation under the same draws",
         "assumptions": ["draws in [0,1)"],
